@@ -1,4 +1,8 @@
 import Comdex.Lemmas.LiqOrders
+import Comdex.Lemmas.LiqAmmBridge
+import Comdex.Lemmas.LiqMoves
+import Comdex.Lemmas.LiqFarm
+import Comdex.Props.C05
 /-!
 # C04 — Liquidity custody: escrows, reserves and farmed pool coins are fully backed
 
@@ -13,10 +17,28 @@ Property clause → theorem
       → `escrow_ge_requests` (and the exact form `escrow_eq_requests`)
 * "each pair's escrow account holds at least the remaining offer coins of all its live orders"
       → `pair_escrow_exact` (always: escrow = Σ live (remaining + fee reserve) + what matching took in − handed out),
-        `pair_escrow_ge_orders` (for histories whose observed match results conserve coins, the law C05 establishes),
-        `pair_escrow_ge_orders_counterexample` (without that law — defect D2 of the matcher — the escrow can fall short)
+        `pair_escrow_ge_orders_offset` (always, NO premise: escrow + `lostOf` ≥ Σ remaining, where `lostOf a p ops` sums what
+          the match results of that pair handed out beyond what they took in),
+        `modelled_match_quote_exact`, `modelled_match_base_offset`, `modelled_match_deficit` (what C05 PROVES of the
+          modelled matcher, in ledger terms: the quote side of a modelled match balances exactly, the base side up to
+          `lostBase` = the remainder dropped by the re-runs of the pro-rata distribution, D2; 0 when `matchLossless`),
+        `pair_escrow_ge_orders_modelled` (escrow ≥ Σ remaining for histories whose match results are lossless runs of the
+          modelled matcher — no coin-conservation premise), `pair_escrow_ge_orders` (same from `MatchConserving`),
+        `pair_escrow_ge_orders_counterexample`, `d2_offset_witness` (the D2 book of C05: deficit exactly 1000 base)
+* (ledger of a batch — what "fully backed" rests on) no ordinary coin is minted or burnt by any message or hook, in
+  particular not by matching; the dust collector and the pool reserves move by exactly the named amounts
+      → `coins_conserved` (every history, every coin denom: Σ over all real accounts constant), `bank_keys_unique`,
+        `batch_conserves_coins`, `batch_dust_exact`, `batch_reserve_exact`
+        (swap-fee collector and orderers: `C07.finish_moves_exactly`, `C07.fill_pays_demand_coins`)
 * "the liquidity module account holds exactly the pool coins recorded as farmed (queued plus active) for every pool"
       → `farm_custody_exact`
+      (holds for EVERY pool of every history, enabled or disabled — farm / unfarm do not look at the flag, the code never
+       deletes a pool), with the farming mechanics behind it: `unfarm_newest_first` (the unfarm loop = take from the newest
+       queue entries, the active position only gives what the queue cannot cover), `maturation_exact` and
+       `no_mature_entry_after_batch` (ProcessQueuedFarmers moves exactly the entries older than the queue duration)
+* request lifecycle: a pending request stays backed over any number of batches (`escrow_eq_requests`), and if its pool is
+  disabled when it is finally executed it is refunded in full → `deposit_refunded_if_pool_disabled`,
+  `withdraw_refunded_if_pool_disabled`
 * "every pool whose pool-coin supply has reached zero is marked disabled" → `zero_supply_disabled`
 * "pool-coin supply changes only by pool creation and by deposits and withdrawals executed against that pool"
       → `poolcoin_supply_only_by_pool_ops`
@@ -49,18 +71,155 @@ theorem pair_escrow_exact {cfg : Cfg} (hc : CfgOk cfg) (funds : List (Nat × Nat
       liveSum cfg a p d (after cfg funds ops).orders + (after cfg funds ops).bal (.mIn a p) d :=
   (reachable_inv hc funds ops).pairEsc a p d
 
+/-- **Pair escrow + lost ≥ remaining offer coins of the live orders — every history, no premise on the match results.**
+`lostOf a p ops` = Σ over the EndBlocker calls of app `a` of what the match results given for pair `p` handed out beyond
+what they took in (quote side + base side); it is 0 for conserving results and the dropped remainder for a D2 result. -/
+theorem pair_escrow_ge_orders_offset {cfg : Cfg} (hc : CfgOk cfg) (funds : List (Nat × Nat × Nat)) (ops : List Op)
+    (a p : Nat) (d : Denom) :
+    remSum a p d (after cfg funds ops).orders ≤ (after cfg funds ops).bal (.pairEscrow a p) d + lostOf a p ops := by
+  have h0 : (genesis funds).bal (.mOut a p) d ≤ (genesis funds).bal (.mIn a p) d + 0 := by
+    rw [genesis_bal _ _ _ (by simp), genesis_bal _ _ _ (by simp)]
+  have hs := runT_slack (cfg := cfg) a p d ops (genesis funds) 0 h0
+  have hs' : (after cfg funds ops).bal (.mOut a p) d ≤ (after cfg funds ops).bal (.mIn a p) d + lostOf a p ops := by
+    unfold after; omega
+  have h1 := escrow_ge_live_offset (reachable_inv hc funds ops) a p d (lostOf a p ops) hs'
+  have h2 := remSum_le_liveSum cfg a p d (after cfg funds ops).orders
+  omega
+
 /-- **Pair escrow ≥ remaining offer coins of the live orders**, for every history in which each observed match result
 hands out no more than it took in (per side). -/
 theorem pair_escrow_ge_orders {cfg : Cfg} (hc : CfgOk cfg) (funds : List (Nat × Nat × Nat)) (ops : List Op)
     (hcons : ∀ op ∈ ops, OpConserving op) (a p : Nat) (d : Denom) :
-    remSum a p d (after cfg funds ops).orders ≤ (after cfg funds ops).bal (.pairEscrow a p) d :=
-  Nat.le_trans (remSum_le_liveSum cfg a p d _)
-    (escrow_ge_live (reachable_inv hc funds ops) (runT_solvent ops hcons _ (genesis_solvent funds)) a p d)
+    remSum a p d (after cfg funds ops).orders ≤ (after cfg funds ops).bal (.pairEscrow a p) d := by
+  have := pair_escrow_ge_orders_offset hc funds ops a p d
+  rw [lostOf_zero_of_conserving a p ops hcons] at this
+  exact this
+
+/-! ### match results of the MODELLED matcher (C05): what is proved instead of assumed -/
+
+open Comdex.LiqBridge in
+/-- **quote side of a modelled match: exact.** For every well-formed book, `OrderBook.Match` (C05's model) returns a
+quote difference `q` with buyers' payments = sellers' receipts + `q`; with `q ≥ 0` (the code sends it as a coin to the dust
+collector) the ledger input built from the run has `outQ = inQ`. -/
+theorem modelled_match_quote_exact {b b' : Amm.Book} {lp mp q : Int} (h : ModelledRun b lp b' mp q) (hq : 0 ≤ q) (pair : Nat) :
+    outQ (matchInOf pair b b' q) = inQ (matchInOf pair b b' q) :=
+  (modelled_quote_exact h pair).2 hq
+
+open Comdex.LiqBridge in
+/-- **base side of a modelled match: buyers receive exactly what sellers pay plus the dropped remainder** `lostBase`
+(D2); nothing is dropped when C05's decidable ghost `matchLossless` holds (in particular the buy side never loses). -/
+theorem modelled_match_base_offset {b b' : Amm.Book} {lp mp q : Int} (h : ModelledRun b lp b' mp q) (pair : Nat) :
+    ((outB (matchInOf pair b b' q) : Nat) : Int) = inB (matchInOf pair b b' q) + lostBase b b' ∧
+    (Amm.matchLossless b lp = true → outB (matchInOf pair b b' q) = inB (matchInOf pair b b' q)) :=
+  modelled_base_offset h pair
+
+open Comdex.LiqBridge in
+/-- the ledger deficit of a modelled match = exactly the dropped remainder, on the base side only -/
+theorem modelled_match_deficit {b b' : Amm.Book} {lp mp q : Int} (h : ModelledRun b lp b' mp q) (hq : 0 ≤ q) (pair : Nat) :
+    defQ (matchInOf pair b b' q) = 0 ∧ defB (matchInOf pair b b' q) = (lostBase b b').toNat :=
+  modelled_deficit h hq pair
+
+/-- a match input that is a lossless run of the modelled matcher with non-negative dust -/
+def ModelledLossless (m : MatchIn) : Prop :=
+  ∃ (b b' : Amm.Book) (lp mp q : Int), LiqBridge.ModelledRun b lp b' mp q ∧ 0 ≤ q ∧ Amm.matchLossless b lp = true ∧
+    m = LiqBridge.matchInOf m.pair b b' q
+
+theorem modelledLossless_conserving {m : MatchIn} (h : ModelledLossless m) : MatchConserving m := by
+  obtain ⟨b, b', lp, mp, q, hr, hq, hl, he⟩ := h
+  rw [he]; exact LiqBridge.modelled_conserving hr hq hl m.pair
+
+/-- **Pair escrow ≥ remaining offer coins, for match results produced by the modelled matcher** (lossless runs): no
+coin-conservation premise — conservation is what C05 proves of the matcher. -/
+theorem pair_escrow_ge_orders_modelled {cfg : Cfg} (hc : CfgOk cfg) (funds : List (Nat × Nat × Nat)) (ops : List Op)
+    (hm : ∀ a ms ds ws, Op.endBlock a ms ds ws ∈ ops → ∀ m ∈ ms, ModelledLossless m) (a p : Nat) (d : Denom) :
+    remSum a p d (after cfg funds ops).orders ≤ (after cfg funds ops).bal (.pairEscrow a p) d := by
+  apply pair_escrow_ge_orders hc funds ops
+  intro op hop
+  cases op <;> try trivial
+  rename_i a' ms ds ws
+  exact fun m hmm => modelledLossless_conserving (hm a' ms ds ws hop m hmm)
+
+/-! ### the batch as a ledger step -/
+
+/-- **No ordinary coin is ever minted or burnt**: for every history and every coin denom, the sum of the balances of all
+real accounts (users, escrows, reserves, fee / dust collectors, module account) is what it was at genesis.  (Only pool
+coins are minted / burnt, by pool creation and executed deposits / withdrawals.) -/
+theorem coins_conserved (cfg : Cfg) (funds : List (Nat × Nat × Nat)) (ops : List Op) (n : Nat) :
+    coinTotal n (after cfg funds ops).bank = coinTotal n (genesis funds).bank :=
+  coinTotal_moves (mv_runT ops (genesis funds)) n
+
+/-- the bank holds one entry per (account, denom) — so `coinTotal` really is the sum over accounts -/
+theorem bank_keys_unique (cfg : Cfg) (funds : List (Nat × Nat × Nat)) (ops : List Op) :
+    KeysNodup (after cfg funds ops).bank :=
+  keysNodup_moves (mv_runT ops (genesis funds)) (keysNodup_genesis funds)
+
+/-- **Applying a match result neither mints nor burns**, whatever the (observed) fills, flows and dust are. -/
+theorem batch_conserves_coins {cfg : Cfg} {s s' : State} {p : Pair} {m : MatchIn} (h : applyMatch cfg s p m = some s') (n : Nat) :
+    coinTotal n s'.bank = coinTotal n s.bank :=
+  coinTotal_moves (mv_applyMatch h) n
+
+/-- **Dust collector**: receives exactly the match result's quote difference, in the pair's quote denom. -/
+theorem batch_dust_exact {cfg : Cfg} {s s' : State} {p : Pair} {m : MatchIn} (h : applyMatch cfg s p m = some s')
+    (a : Nat) (d : Denom) :
+    s'.bal (.dust a) d = s.bal (.dust a) d + (if a = p.app ∧ d = p.quote then m.dust else 0) :=
+  applyMatch_dust h a d
+
+/-- **Pool reserves**: each reserve account moves by exactly what the pool orders of that pool traded. -/
+theorem batch_reserve_exact {cfg : Cfg} {s s' : State} {p : Pair} {m : MatchIn} (h : applyMatch cfg s p m = some s')
+    (a pl : Nat) (d : Denom) :
+    s'.bal (.reserve a pl) d + sumOver (fun f : PoolFlow => if a = p.app ∧ f.pool = pl ∧ sideIn p f.buy = d then f.paid else 0) m.pools =
+    s.bal (.reserve a pl) d + sumOver (fun f : PoolFlow => if a = p.app ∧ f.pool = pl ∧ sideOut p f.buy = d then f.recv else 0) m.pools :=
+  applyMatch_reserve h a pl d
 
 /-- **Farmed pool coins, exact.** -/
 theorem farm_custody_exact {cfg : Cfg} (hc : CfgOk cfg) (funds : List (Nat × Nat × Nat)) (ops : List Op) (a p : Nat) :
     (after cfg funds ops).bal .module (.pool a p) = farmSum a p (after cfg funds ops).farmers :=
   (reachable_inv hc funds ops).farm a p
+
+/-- **`MsgUnfarm` takes from the newest queue entries first** (reachable states): the farmer's queue becomes the old queue
+with `amt` consumed from its newest end, the active position is reduced only by `amt − Σ queue`, the farmer receives `amt`
+pool coins from the module account. -/
+theorem unfarm_newest_first {cfg : Cfg} (hc : CfgOk cfg) (funds : List (Nat × Nat × Nat)) (ops : List Op)
+    {app user pool amt : Nat} {ext : Bool} {f : Farmer} {s' : State}
+    (hf : findBy (isFarmer app pool user) (after cfg funds ops).farmers = some f)
+    (h : step cfg (after cfg funds ops) (.unfarm app user pool amt ext) = some s') :
+    findBy (isFarmer app pool user) s'.farmers =
+      some { f with queued := (takeNewest f.queued.reverse amt).reverse, active := f.active - (amt - qTotal f.queued) } ∧
+    s'.bal (.user user) (.pool app pool) = (after cfg funds ops).bal (.user user) (.pool app pool) + amt ∧
+    s'.bal .module (.pool app pool) + amt = (after cfg funds ops).bal .module (.pool app pool) :=
+  unfarm_effect (reachable_inv hc funds ops) hf h
+
+/-- **Maturation moves exactly the mature entries** (`ProcessQueuedFarmers`, per farmer): what stays queued is younger
+than the queue duration, the active position grows by exactly the mature entries, the farmer's total is unchanged. -/
+theorem maturation_exact (dur now : Int) (f : Farmer) :
+    (∀ q ∈ (activate dur now f).queued, now < q.2 + dur ∧ q ∈ f.queued) ∧
+    (activate dur now f).active = f.active + qTotal (f.queued.filter fun q => !decide (now < q.2 + dur)) ∧
+    qTotal (activate dur now f).queued + (activate dur now f).active = qTotal f.queued + f.active :=
+  activate_spec dur now f
+
+/-- after an app's batch no queue entry of that app is mature -/
+theorem no_mature_entry_after_batch (cfg : Cfg) (s : State) (a : Nat) :
+    ∀ f ∈ (processQueued cfg s a).farmers, f.app = a → ∀ q ∈ f.queued, s.now < q.2 + cfg.queueDur :=
+  processQueued_none_mature cfg s a
+
+/-- **A deposit request executed against a disabled pool is refunded in full** (any state, any batch later). -/
+theorem deposit_refunded_if_pool_disabled {s s' : State} {a pl i ax ay pc : Nat} {r : DepReq} {q : Pool}
+    (hr : findBy (isDep a pl i) s.deps = some r) (hp : r.status = .pending)
+    (hq : s.pool? a pl = some q) (hd : q.disabled = true) (hne : r.qd ≠ r.bd)
+    (h : execDeposit s a pl i ax ay pc = some s') :
+    s'.bal (.user r.owner) r.qd = s.bal (.user r.owner) r.qd + r.dx ∧
+    s'.bal (.user r.owner) r.bd = s.bal (.user r.owner) r.bd + r.dy ∧
+    (findBy (isDep a pl i) s'.deps).map (·.status) = some .failed ∧ s'.pools = s.pools :=
+  execDeposit_disabled_refunds hr hp hq hd hne h
+
+/-- **A withdrawal request executed against a disabled pool gets its pool coins back.** -/
+theorem withdraw_refunded_if_pool_disabled {s s' : State} {a pl i x y : Nat} {r : WdrReq} {q : Pool}
+    (hr : findBy (isWdr a pl i) s.wdrs = some r) (hp : r.status = .pending)
+    (hq : s.pool? a pl = some q) (hd : q.disabled = true)
+    (h : execWithdraw s a pl i x y = some s') :
+    s'.bal (.user r.owner) (.pool a pl) = s.bal (.user r.owner) (.pool a pl) + r.pc ∧
+    (findBy (isWdr a pl i) s'.wdrs).map (·.status) = some .failed ∧ s'.pools = s.pools :=
+  execWithdraw_disabled_refunds hr hp hq hd h
 
 /-- **Zero supply ⇒ disabled.** -/
 theorem zero_supply_disabled {cfg : Cfg} (hc : CfgOk cfg) (funds : List (Nat × Nat × Nat)) (ops : List Op) :
@@ -104,6 +263,15 @@ theorem pair_escrow_ge_orders_counterexample :
     (after cfg1 funds1 opsD2).bal (.pairEscrow 1 1) (.coin 1) < remSum 1 1 (.coin 1) (after cfg1 funds1 opsD2).orders := by
   decide
 
+/-- the D2 book of C05 (two sells 15000 @ 0.0001, one buy 16000 @ 0.0002, last price 0.00009) run through the modelled
+matcher: the ledger input built from the run has no quote deficit and a base deficit of exactly the 1000 dropped coins -/
+theorem d2_offset_witness :
+    ∃ b' mp q, Amm.matchBook (Amm.newBook C05.d2Orders) 90000000000000 = .ok b' mp q ∧
+      defQ (LiqBridge.matchInOf 1 (Amm.newBook C05.d2Orders) b' q) = 0 ∧
+      defB (LiqBridge.matchInOf 1 (Amm.newBook C05.d2Orders) b' q) = 1000 ∧
+      LiqBridge.lostBase (Amm.newBook C05.d2Orders) b' = 1000 :=
+  ⟨_, _, _, C05.base_conserved_counterexample.1, by decide, by decide, by decide⟩
+
 /-! ### Non-vacuity -/
 
 theorem cfg1_ok : CfgOk cfg1 := by
@@ -133,5 +301,12 @@ example : ((after cfg1 funds1 opsOK).orders.map fun o => (o.id, o.remaining, o.s
 example : (after cfg1 funds1 opsOK).bal (.pairEscrow 1 1) (.coin 1) = 5045 := by decide
 example : remSum 1 1 (.coin 1) (after cfg1 funds1 opsOK).orders = 5000 := by decide
 example : touchesSupply 1 1 (.createPool 1 0 1 false 5 5 5 true) := rfl
+/-- queue of three ages (oldest first) 50@t1, 30@t2, 20@t3: unfarming 35 takes 20 from the newest and 15 from the middle -/
+example : keepNonzero (deduct [(50, 1), (30, 2), (20, 3)] 35).1 = [(50, 1), (15, 2)] ∧ (deduct [(50, 1), (30, 2), (20, 3)] 35).2 = 0 ∧
+    (deduct [(50, 1), (30, 2), (20, 3)] 130).2 = 30 := by decide
+/-- maturation at time 100 with duration 60: entries created at 10 and 40 are mature, the one at 70 is not -/
+example : activate 60 100 { app := 1, pool := 1, owner := 0, queued := [(5, 10), (7, 40), (9, 70)], active := 2 } =
+    { app := 1, pool := 1, owner := 0, queued := [(9, 70)], active := 14 } := by decide
+example : coinTotal 1 (after cfg1 funds1 opsOK).bank = 2000000 ∧ coinTotal 1 (genesis funds1).bank = 2000000 := by decide
 
 end Comdex.C04
